@@ -108,20 +108,20 @@ Lemma sem_recover_both_fail n x y ctx p a a0 a1 :
 Proof. intros H1 H2. cbn. now rewrite H1, H2. Qed.
 
 (* context: the nearest enclosing provider wins *)
-Lemma sem_with_ctx n c x ctx p a : sem (S n) (WithCtx c x) ctx p a = sem n x c p a.
+Lemma sem_with_ctx n c x ctx p a : sem (S n) (WithCtx c x) ctx p a = sem n x (with_ctx ctx c) p a.
 Proof. reflexivity. Qed.
 
 Lemma sem_ignore_with_ctx n x y ctx p a va p1 e1 a1 :
   sem n x ctx p a = Some (Some (va, p1, e1), a1) ->
   sem (S n) (IgnoreWithCtx x y) ctx p a =
-    match sem n y va p1 a1 with
+    match sem n y (with_ctx ctx va) p1 a1 with
     | Some (Some (vb, p2, e2), a2) => Some (Some (vb, p2, e1 ++ e2), a2)
     | Some (None, a2) => Some (None, a2)
     | None => None
     end.
 Proof. intros H. cbn. now rewrite H. Qed.
 
-Lemma sem_just_cfg n ts ctx p a : sem (S n) (JustCfg ts) ctx p a = sem (S n) (Just (val_toks ctx)) ctx p a.
+Lemma sem_just_cfg n ts ctx p a : sem (S n) (JustCfg ts) ctx p a = sem (S n) (Just (val_toks (cval ctx))) ctx p a.
 Proof. reflexivity. Qed.
 
 (* ---------- output elision (C04): eliding combinators equal their value-building formulation ---------- *)
